@@ -4,7 +4,8 @@
    instantiated with the out-of-circuit square root the gadgets call (ark_sr). *)
 Require Import ZArith List Bool.
 From D377 Require Import Base.Certs Base.ZpField Base.FieldSec Base.Fields Model.Decaf Model.Gadgets Model.Wrapper Model.Concrete.
-From D377 Require Import Spec.Edwards Spec.DecafSpec Proofs.Instance Proofs.Final Proofs.GadgetProofs Proofs.WrapperProofs Proofs.WrapperNative Proofs.Codec Proofs.EdwardsLaw.
+From D377 Require Import Spec.Edwards Spec.DecafSpec Proofs.Instance Proofs.Final Proofs.GadgetProofs Proofs.WrapperProofs Proofs.WrapperNative Proofs.Codec Proofs.EdwardsLaw Tie.Gadgets.
+From D377 Require Generated.GadgetsGen.
 Local Existing Instance FqF.
 
 Definition g_decode_honest := @decode_honest FqF ark_D ark_ZETA fq_neg ark_sr.
@@ -90,4 +91,21 @@ Proof.
   split.
   - exists identity. unfold n_decode. exact (@Codec.decode_zero FqF ark_D fq_neg ark_sr fq_neg0 ark_sr_11).
   - exact (@EdwardsLaw.ed_zero_on_curve FqF fq_a ark_D).
+Qed.
+
+(* ---- the element arithmetic of the history model (gadd / gdbl of Model/Wrapper.v) IS the code of the dependency: ark-r1cs-std's
+   twisted-Edwards AffineVar `+` and `double_in_place`, translated from the registry sources of the version pinned by Cargo.lock with the
+   crate's COEFF_A / COEFF_D (Generated/GadgetsGen.v); on curve points the constraints they add are satisfied ---- *)
+Theorem C13_dependency_affinevar_values : forall p q,
+  snd (@Generated.GadgetsGen.affinevar_add_gen FqF ark_A ark_D (aX p) (aY p) (aX q) (aY q)) = (aX (gadd fq_a ark_D p q), aY (gadd fq_a ark_D p q)) /\
+  snd (@Generated.GadgetsGen.affinevar_double_gen FqF ark_A (aX p) (aY p)) = (aX (gdbl fq_a p), aY (gdbl fq_a p)).
+Proof.
+  intros p q. rewrite ark_A_is_m1. split; [exact (@affinevar_add_values FqF fq_a ark_D p q)|exact (@affinevar_double_values FqF fq_a p)].
+Qed.
+Theorem C13_dependency_affinevar_add_satisfied : forall p q, on_curve fq_a ark_D p -> on_curve fq_a ark_D q ->
+  fst (@Generated.GadgetsGen.affinevar_add_gen FqF ark_A ark_D (aX p) (aY p) (aX q) (aY q)) = true.
+Proof.
+  intros p q Hp Hq. rewrite ark_A_is_m1.
+  destruct (@denoms_nonzero FqF fq_a ark_D m1_sq d_ns fq_two_nz p q Hp Hq) as [H1 H2].
+  exact (@affinevar_add_sat' FqF fq_a ark_D p q H1 H2).
 Qed.
